@@ -32,8 +32,13 @@ impl Env {
 pub fn gen_expr(r: &mut Rng, params: &[(String, f64)], depth: usize) -> (String, f64) {
     let leaf = depth == 0 || r.chance(2, 5);
     if leaf {
-        match r.below(6) {
+        match r.below(7) {
             0 => ("pi".to_string(), std::f64::consts::PI),
+            6 => {
+                // exact multiples of pi, negative ones and ones beyond one and two turns included
+                let k = *r.pick(&[-5i32, -4, -3, -2, -1, 2, 3, 4, 6][..]);
+                (format!("{k}*pi"), k as f64 * std::f64::consts::PI)
+            }
             1 if !params.is_empty() => {
                 let (n, v) = r.pick(params).clone();
                 (n, v)
